@@ -66,6 +66,8 @@ def run(run, model):
     from . import effects
     run.do(twins.body_await, model)
     run.do(twins.coroutine_results_tested, model)
+    # the rejection of a coroutine on a sync callable reaches the caller: no handler absorbs or defers it
+    run.do(effects.handlers_rule, model, "C13.no-swallow")
     run.do(effects.frozen_after_init, model, "C13.no-cached-decision")
     run.do(inv.self_rule, model, "C13.sync-reject-invariant")
     run.do(parity, model)
